@@ -345,8 +345,27 @@ def prove(report: Report, prop: str, translators, extra_targets=()):
     return {"ok": True, "broken": None}
 
 
+_PORT_BLOCK = []
+
+
 def own_port(k: int = 0) -> int:
-    """A loopback TCP port of this process's own block of ten.  Several checks may run at the same time: the blocks are keyed by
-    the pid (distinct for processes alive together) and lie below the kernel's ephemeral range, so neither another check nor an
-    outgoing connection is given the same port while an endpoint here is between two listeners."""
-    return 10000 + (os.getpid() % 2000) * 10 + (k % 10)
+    """A loopback TCP port of this process's own block of ten.  Several checks may run at the same time: a block is claimed by
+    binding an abstract unix socket named after it (exclusive among live processes, released by the kernel when the process ends,
+    no file anywhere); the blocks lie below the kernel's ephemeral range, so neither another check nor an outgoing connection is
+    given the same port while an endpoint here is between two listeners."""
+    if not _PORT_BLOCK:
+        import socket
+        start = os.getpid() % 2000
+        for off in range(2000):
+            idx = (start + off) % 2000
+            lock = socket.socket(socket.AF_UNIX, socket.SOCK_STREAM)
+            try:
+                lock.bind("\0secsgem-verif-portblock-%d" % idx)
+            except OSError:
+                lock.close()
+                continue
+            _PORT_BLOCK.extend([idx, lock])
+            break
+        else:
+            _PORT_BLOCK.extend([start, None])
+    return 10000 + _PORT_BLOCK[0] * 10 + (k % 10)
